@@ -1,12 +1,12 @@
-\* exhaustive: two readers (delta+cumulative, cumulative+cumulative, delta+delta), two attribute sets,
-\* every boundary list within {1,3} over ranks 0..4 (below / equal / between / equal / above),
-\* <= 3 recorded values, every split over <= 3 collections, record_min_max on and off
+\* pipe 2 readers (dd|dc|cc), ranks 0..4, every boundary list within {1,3}, <=3 values, <=3 collections
+\* (tools/props/C07.py generates the same text; thorough tier uses larger constants)
 CONSTANTS MaxRank = 4
   BoundSets = {{}, {1}, {3}, {1,3}}
   Tables = {"D_small"}
-  MMChoices = {TRUE, FALSE}
-  Mode = "pipe" NSlots = 1 NKeys = 2 ReaderCfgs = {11, 12, 22}
-  MaxAgg = 3 MaxOps = 3 Balanced = FALSE Dev = {} Hist = FALSE
+  MMChoices = {TRUE}
+  Mode = "pipe" NSlots = 2 NKeys = 1 ReaderCfgs = {11, 12, 22}
+  MaxAgg = 3 MaxOps = 3 Balanced = FALSE Hist = FALSE
+  Dev = {}
 INIT Init
 NEXT Next
 VIEW View
